@@ -103,8 +103,8 @@ func (r *DOH) resolve(ctx context.Context, q query.Query, buf []byte, rt http.Ro
 	if ci.Model != "" {
 		req.Header.Set("X-Device-Model", ci.Model)
 	}
-	if ci.Name != "" {
-		req.Header.Set("X-Device-Name", ci.Name)
+	if name := headerValue(ci.Name); name != "" {
+		req.Header.Set("X-Device-Name", name)
 	}
 	if rt == nil {
 		rt = http.DefaultTransport
@@ -135,6 +135,20 @@ func (r *DOH) resolve(ctx context.Context, q query.Query, buf []byte, rt http.Ro
 		updateTTL(buf[:n], 0, 0, r.MaxTTL)
 	}
 	return n, i, err
+}
+
+// headerValue returns s without the bytes net/http refuses in a header field
+// value (control characters other than tab). Device names come from the LAN
+// (mDNS, DHCP, hosts): a single such byte would otherwise make the transport
+// reject every request of that client before sending it.
+func headerValue(s string) string {
+	b := make([]byte, 0, len(s))
+	for i := 0; i < len(s); i++ {
+		if c := s[i]; (c >= ' ' && c != 0x7f) || c == '\t' {
+			b = append(b, c)
+		}
+	}
+	return string(b)
 }
 
 // lastMod returns the last modification time of the configuration pointed by
